@@ -44,7 +44,7 @@ func init() {
 			"burned amounts = amounts of successful MsgBurnToken (fee burning is accounted under the fee clause)",
 			"tx fees are zero in the harness so the ante handler moves no coins",
 		},
-		Cases: func(t string) int { return tierN(t, 6, 48) },
+		Cases: func(t string) int { return tierN(t, 16, 48) },
 		Run:   runTokenC09,
 	})
 	Register(&Spec{
@@ -56,7 +56,7 @@ func init() {
 			"SwapFeeToken is reached through a message server built on Keeper.WithSwapRegistry inside a harness op (the app wiring has no registry)",
 			"EVM->native: the ERC20 burn and the SwapToNative log are produced by the harness playing the contract; the hook under test is keeper.Hooks().PostTxProcessing",
 		},
-		Cases: func(t string) int { return tierN(t, 8, 64) },
+		Cases: func(t string) int { return tierN(t, 16, 64) },
 		Run:   runTokenC10,
 	})
 }
@@ -1976,9 +1976,9 @@ func (g *tkGen) erc20Switch() (rig.Tx, bool) {
 // C10
 
 func runTokenC10(run *ev.Run, c int) {
-	// case kinds: quick 2 P + 3 E + 3 F; thorough 16 P + 24 E + 24 F
+	// case kinds: quick 2 P + 7 E + 7 F; thorough 16 P + 24 E + 24 F
 	nP := tierN(run.Tier, 2, 16)
-	nE := tierN(run.Tier, 3, 24)
+	nE := tierN(run.Tier, 7, 24)
 	switch {
 	case c < nP:
 		tkPureProbe(run, c, tierN(run.Tier, 100_000, 10_000_000)/nP)
